@@ -721,7 +721,7 @@ def generate(ctx):
     ctx.note_exhaustive("every catalogue call alone and repeated; every (call, related mutator) pair in the orders "
                         "call-mutate-call and mutate-call-call; every toggle set+restore around every Bip44-family call")
     # random base sequences with one mutator inserted at every position
-    nb = ctx.n(25, 250)
+    nb = ctx.n(25, 500)
     for _ in range(nb):
         if not ctx.time_left():
             break
@@ -731,7 +731,7 @@ def generate(ctx):
             h = base[:p] + mus + base[p:]
             run_history(ctx, h, "insert-everywhere")
     # free random histories (several mutators, repeated calls)
-    for _ in range(ctx.n(100, 1200)):
+    for _ in range(ctx.n(100, 3000)):
         if not ctx.time_left():
             break
         h = [rng.choice(CALLS) if rng.random() < 0.75 else rng.choice(MUTATORS) for _ in range(rng.randrange(5, 25))]
@@ -741,7 +741,7 @@ def generate(ctx):
             rng.shuffle(hp)
             run_history(ctx, hp, "permuted")
     # fresh interpreter / threads
-    for _ in range(ctx.n(6, 120)):
+    for _ in range(ctx.n(6, 300)):
         if not ctx.time_left():
             break
         h = [rng.choice(CALLS) if rng.random() < 0.8 else rng.choice(MUTATORS) for _ in range(rng.randrange(5, 20))]
